@@ -31,7 +31,7 @@ package xpair
 //@   ensures name == protocol.OptionWriteQLen ==> (isnil(result) <==> is_int(value) && 0 <= int_of(value))
 //@   ensures name == protocol.OptionWriteQLen && !isnil(result) ==> result == protocol.ErrBadValue
 //@   ensures name == protocol.OptionWriteQLen && isnil(result) ==> s.sendQLen == int_of(value)
-//@   ensures !isnil(result) ==> unchanged(s.bestEffort, s.recvExpire, s.recvQLen, s.sendExpire, s.sendQLen)
+//@   ensures !isnil(result) && (name == protocol.OptionBestEffort || name == protocol.OptionRecvDeadline || name == protocol.OptionSendDeadline || name == protocol.OptionReadQLen || name == protocol.OptionWriteQLen) ==> unchanged(s.bestEffort, s.recvExpire, s.recvQLen, s.sendExpire, s.sendQLen)
 //@
 //@ func (*socket).GetOption
 //@   ensures option != protocol.OptionBestEffort && option != protocol.OptionRecvDeadline && option != protocol.OptionSendDeadline && option != protocol.OptionReadQLen && option != protocol.OptionWriteQLen && option != protocol.OptionRaw ==> result1 == protocol.ErrBadOption && isnil(result0)
